@@ -435,7 +435,11 @@ func (p *Path) Branch(c *Term) bool {
 	}
 	for _, v := range c.vars {
 		if v.opaque {
-			panic(unsupported("branch on opaque (un-modelled) string content %s", v.name))
+			loc := ""
+			if cf := p.w.interp.curFrame; cf != nil {
+				loc = " at " + cf.where() + " in " + cf.fn.String()
+			}
+			panic(unsupported("branch on opaque (un-modelled) string content %s%s", v.name, loc))
 		}
 	}
 	if v, ok := p.known[c.id]; ok {
